@@ -119,8 +119,9 @@ impl Prop for C01 {
     fn strategy(&self, _tier: Tier) -> BoxedStrategy<Case> {
         prop_oneof![
             4 => (arb_d(), arb_d()).prop_map(|(x, y)| Case { x, y: Rhs::Dec(y) }),
-            2 => (arb_d(), arb_int()).prop_map(|(x, i)| Case { x, y: Rhs::IntR(i) }),
-            2 => (arb_d(), arb_int()).prop_map(|(x, i)| Case { x, y: Rhs::IntL(i) }),
+            2 => (arb_d(), arb_int_full()).prop_map(|(x, i)| Case { x, y: Rhs::IntR(i) }),
+            2 => (arb_d(), arb_int_full()).prop_map(|(x, i)| Case { x, y: Rhs::IntL(i) }),
+            2 => arb_related_pair().prop_map(|(x, y)| Case { x, y: Rhs::Dec(y) }),
             3 => boundary_pair(),
             2 => rescale_overflow_pair(),
             2 => int_edge(),
